@@ -142,7 +142,7 @@ inductive Sess
   | scope (ctx : String) (body : Sess) -- an enclosing construct without semantics of its own (second `range`, `func`)
   | when (c : Cond) (body : Sess)      -- guarded code whose guard is not a syntactic `if` of the function (loop over a possibly empty list)
   | assumeBanner                       -- the gate's banner check is taken to succeed (Linux; C06 owns it)
-  deriving Repr, Inhabited
+  deriving Repr, Inhabited, DecidableEq
 
 infixr:60 " ;; " => Sess.seq
 
